@@ -6,6 +6,7 @@ import (
 	"sync"
 
 	"github.com/lugu/qiloop/bus/net"
+	"github.com/lugu/qiloop/vhook"
 )
 
 func objectTerminator(service Service, objectID uint32) func() {
@@ -168,8 +169,10 @@ func (s *serviceImpl) Receive(m *net.Message, from Channel) error {
 	box, ok := s.boxes[m.Header.Object]
 	s.RUnlock()
 	if !ok {
+		vhook.Emit("service", from.EndPoint(), "noobj", "id", m.Header.ID, "service", m.Header.Service, "object", m.Header.Object)
 		return from.SendError(m, ErrObjectNotFound)
 	}
+	vhook.Emit("service", from.EndPoint(), "tobox", "box", vhook.ID(box), "id", m.Header.ID, "service", m.Header.Service, "object", m.Header.Object)
 	box <- NewMail(m, from)
 	return nil
 }
